@@ -1928,6 +1928,13 @@ class t2data(object):
             if gen.type in convert: gen.type = convert[gen.type]
             elif not ((gen.type in allowed) or gen.type.startswith('COM')):
                 delgens.append((gen.block, gen.name))
+        if delgens:
+            # delete unsupported generators from both the list and dictionary
+            # (rebuilding the dictionary, in case of duplicate keys):
+            self.generatorlist = [gen for gen in self.generatorlist if
+                                  (gen.type in allowed) or gen.type.startswith('COM')]
+            self.generator = dict([((gen.block, gen.name), gen) for
+                                   gen in self.generatorlist])
         if warn and len(delgens) > 0:
             print('The following generators have types not supported' + \
                   ' by TOUGH2 and have been deleted:')
